@@ -3,8 +3,17 @@
    client-first uses a fresh draw of the randomness oracle. *)
 From Coq Require Import String ZArith Lia.
 From Verif Require Import Bytes Base64 Scram AuthLoop Sasl.
-From VerifProofs Require Import ScramProofs.
 Open Scope N_scope.
+
+(* (kept local: this file must not depend on ScramProofs.v, whose T1 obligation fails on a tree without the C15 repairs) *)
+Lemma bytes_eqb_eq : forall a b, bytes_eqb a b = true -> a = b.
+Proof.
+  induction a as [|x a IH]; destruct b as [|y b]; simpl; intros E; try discriminate; auto.
+  apply andb_true_iff in E. destruct E as [E1 E2]. apply N.eqb_eq in E1. subst. f_equal. auto.
+Qed.
+
+Lemma bytes_eqb_refl : forall a, bytes_eqb a a = true.
+Proof. induction a; simpl; auto. rewrite N.eqb_refl. auto. Qed.
 
 (* ---- saslname escaping (RFC 5802 section 5.1) ---- *)
 Lemma escape_cons : forall c u,
